@@ -70,7 +70,8 @@ def context(case):
         if esaa:
             kw['esaa'] = True
         timed = athlon.kind_of(e) == 'timed'
-        return (lambda c: call(athlib.athlon_score, g, e, centi_float(c), **kw)), timed, 0, None
+        gs, es = case.get('spelling', (g, e))      # the pair as the caller spells it (the scoring key folds letter case)
+        return (lambda c: call(athlib.athlon_score, gs, es, centi_float(c), **kw)), timed, 0, None
     if s == 'hungarian':
         g, io, e = case['gender'], case['inout'], case['event']
         timed = case['timed']
@@ -256,6 +257,22 @@ def shard(ctx, payload):
             # the same sweep with option calls interleaved (state must not leak between calls)
             sweep(dict(base, age=None, perturb=37, reverse=True), 0, hi, nwin=4 if not thorough else 12, width=1500)
             sweep(dict(base, age=None, perturb=41), 0, hi, nwin=2 if not thorough else 8, width=1500)
+        # caller spellings of the pair (lower / mixed case: the scoring key folds case itself): the same event, so still
+        # monotone - and the same points as the table's own spelling at the window ends
+        # (rows of the table itself: the veterans' short-hurdles aliases are matched as written, so a differently spelled
+        # alias is simply a pair the table does not know)
+        for sp in ([g.lower(), e.lower()], [g, e.lower()], [g.lower(), e[:1] + e[1:].lower()]) if te == e else ():
+            if sp == [g, e]:
+                continue
+            sweep(dict(base, age=None, spelling=sp), 0, hi, nwin=2, width=800)
+            age_ = 40 + rng.randrange(50)
+            if athlon.exact_factor(g, e, min(5 * (age_ // 5), 110)) is not None:
+                sweep(dict(base, age=age_, spelling=sp), 0, hi, nwin=1, width=600)
+            for c in (hi // 3, hi // 2):
+                a, b = call(athlib.athlon_score, sp[0], sp[1], centi_float(c)), call(athlib.athlon_score, g, e, centi_float(c))
+                if a[:2] != b[:2]:
+                    ctx.violation(V('returns-points', ['athlon', 'caller-spelling-differs'], dict(base, age=None, spelling=sp, lo=c, hi=c), a[:3], b[:3]))
+            ctx.label('caller-spelling-sweeps')
         for band in range(35, 111, 5):
             f = athlon.exact_factor(g, e, band)
             if f is None:
